@@ -139,7 +139,19 @@ def gen_txn():
     write("TxnC", body)
 
 
-SECTIONS = {"txn": gen_txn, "ladder": gen_ladder, "refs": gen_refs, "status": gen_status, "delays": gen_delays}
+def gen_live():
+    from unittest import mock
+    from flumine.order.orderpackage import BetfairOrderPackage, OrderPackageType
+    from flumine.clients.clients import ExchangeType
+    client = mock.Mock(); client.execution.EXCHANGE = ExchangeType.BETFAIR
+    pk = BetfairOrderPackage(client=client, market_id="1.1", orders=[], package_type=OrderPackageType.PLACE, bet_delay=0)
+    if not pk._retry:
+        raise SystemExit("gen_consts: retries are switched off by default")
+    body = "Definition MAX_RETRIES := %s.\n" % z(pk._max_retries)
+    write("LiveC", body)
+
+
+SECTIONS = {"live": gen_live, "txn": gen_txn, "ladder": gen_ladder, "refs": gen_refs, "status": gen_status, "delays": gen_delays}
 
 if __name__ == "__main__":
     which = sys.argv[1:] or sorted(SECTIONS)
